@@ -667,12 +667,17 @@ def candidates(fn, stored_attrs=frozenset()) -> List[Cand]:
                 elif isinstance(v, ast.Call) and isinstance(v.func, ast.Name) and v.func.id == "dict" and len(v.args) == 1 and not v.keywords:
                     # dict(a) == {**a} for a mapping (a sequence of pairs is accepted by the former only)
                     src = "dict-call"
+                elif isinstance(v, ast.Call) and isinstance(v.func, ast.Name) and v.func.id in DICT_SUBCLASSES and len(v.args) == 1 and not v.keywords and isinstance(v.args[0], (ast.Name, ast.Attribute)):
+                    src = "subclass-call"      # JsonSchema(a) then c[k] = v  ==  JsonSchema({**a, k: v})
                 if isinstance(tgt, ast.Name) and isinstance(sub.value, ast.Name) and sub.value.id == tgt.id and src is not None \
                         and not mentions(sub.slice, tgt.id) and not mentions(rest[0].value, tgt.id) and (pure(sub.slice) or pure(rest[0].value)):
                     def f(stmts=stmts, i=i, st=st, src=src, sub=sub, val=rest[0].value):
                         if src == "dict-call":
                             src = L(ast.Dict(keys=[None], values=[st.value.args[0]]), st.value)
                             st.value = src
+                        elif src == "subclass-call":
+                            src = L(ast.Dict(keys=[None], values=[st.value.args[0]]), st.value)
+                            st.value.args[0] = src
                         src.keys.append(sub.slice)
                         src.values.append(val)
                         del stmts[i + 1]
@@ -1042,6 +1047,7 @@ def inline_fresh(fn, known_names: set, stored_attrs, dry: bool = False) -> bool:
     return False
 
 
+DICT_SUBCLASSES = {"JsonSchema", "OrderedDict"}
 PURE_METHODS = {"keys", "values", "items", "get", "copy"}
 PURE_BUILTINS = {"len", "set", "frozenset", "tuple", "list", "dict", "sorted", "isinstance", "type", "bool", "min", "max"}
 
@@ -2132,6 +2138,23 @@ def candidates2(fn, stored_attrs) -> List[Cand]:
                     call = L(ast.Call(func=L(ast.Attribute(value=a_.targets[0].value, attr="update", ctx=ast.Load()), st), args=[dc], keywords=[]), st)
                     stmts[i] = L(ast.Expr(value=call), st)
                 out.append(("loop-update", f))
+            # `d.setdefault(k, v)` (statement, v pure)  <->  `if k not in d: d[k] = v`
+            if isinstance(st, ast.Expr) and isinstance(st.value, ast.Call) and isinstance(st.value.func, ast.Attribute) and st.value.func.attr == "setdefault" and len(st.value.args) == 2 \
+                    and not st.value.keywords and isinstance(st.value.func.value, ast.Name) and pure(st.value.args[0]) and pure(st.value.args[1]):
+                def f(stmts=stmts, i=i, st=st):
+                    d_, k_, v_ = st.value.func.value, st.value.args[0], st.value.args[1]
+                    test = L(ast.Compare(left=k_, ops=[ast.NotIn()], comparators=[d_]), st)
+                    store = L(ast.Assign(targets=[L(ast.Subscript(value=copy.deepcopy(d_), slice=copy.deepcopy(k_), ctx=ast.Store()), st)], value=v_), st)
+                    stmts[i] = L(ast.If(test=test, body=[store], orelse=[]), st)
+                out.append(("setdefault-out", f))
+            if isinstance(st, ast.If) and not st.orelse and len(st.body) == 1 and isinstance(st.test, ast.Compare) and len(st.test.ops) == 1 and isinstance(st.test.ops[0], ast.NotIn) \
+                    and isinstance(st.body[0], ast.Assign) and len(st.body[0].targets) == 1 and isinstance(st.body[0].targets[0], ast.Subscript) \
+                    and ast.dump(_strip_ctx(st.body[0].targets[0].value)) == ast.dump(_strip_ctx(st.test.comparators[0])) and ast.dump(_strip_ctx(st.body[0].targets[0].slice)) == ast.dump(_strip_ctx(st.test.left)) \
+                    and pure(st.body[0].value) and pure(st.test.left) and isinstance(st.test.comparators[0], ast.Name):
+                def f(stmts=stmts, i=i, st=st):
+                    call = L(ast.Call(func=L(ast.Attribute(value=st.test.comparators[0], attr="setdefault", ctx=ast.Load()), st), args=[st.test.left, st.body[0].value], keywords=[]), st)
+                    stmts[i] = L(ast.Expr(value=call), st)
+                out.append(("setdefault-in", f))
             # flag through try: `try: f = E except T: f = False` + `if f: <simple exit>`  ->  `try: if E: <simple exit> except T: pass`
             if isinstance(st, ast.Try) and len(st.body) == 1 and len(st.handlers) == 1 and not st.orelse and not st.finalbody and rest and isinstance(rest[0], ast.If) and not rest[0].orelse \
                     and isinstance(st.body[0], ast.Assign) and len(st.body[0].targets) == 1 and isinstance(st.body[0].targets[0], ast.Name) \
